@@ -358,7 +358,8 @@ class Tracker:
                     return ("bool", (), neg)
         if wrap == "val" and steps:
             if c.endswith("Result::map_err") or c.endswith("Result::as_ref") or c.endswith("Option::as_ref") \
-                    or c.endswith("Result::or_else") and False:
+                    or c.endswith("Result::inspect_err") or c.endswith("Result::inspect") or c.endswith("Option::inspect") \
+                    or c.endswith("Result::as_mut") or c.endswith("Option::as_mut"):
                 return st
             if c.endswith("Option::ok_or") or c.endswith("Option::ok_or_else"):
                 m = {"Some": "Ok", "None": "Err"}
